@@ -456,6 +456,13 @@ func main() {
 				// the sink itself into a writer that fails after n bytes, with a marker-free value
 				failing = append(failing, func() { k.mk("PRE<\"'>").Render(context.Background(), &failAfter{n: n}) })
 			}
+			// a value larger than the runtime's 4 KiB buffer: the failure reaches whatever writes the value
+			// while it is being written (an intermediate buffer is handed on half-written), not at the final flush
+			big := strings.Repeat("PRE<\"'>", 700)
+			for _, n := range []int{0, 4100} {
+				n := n
+				failing = append(failing, func() { k.mk(big).Render(context.Background(), &failAfter{n: n}) })
+			}
 		}
 		hist := 0
 		for _, f := range failing {
